@@ -1,10 +1,19 @@
 //! pb_harness: runs the real profirust code on cases and prints canonical results.
 //!   pb_harness gen <domain> <seed> <quick|thorough>     -> case lines on stdout
 //!   pb_harness run <domain>                              -> reads case lines, prints `<case> => <result>`
+//! One case per line; a stateful case (operation sequence / history) is one line too.
 mod codec;
 mod util;
 
 use std::io::{BufRead, Write};
+
+type GenFn = fn(u64, bool, &mut dyn FnMut(String));
+type RunFn = fn(&str) -> String;
+
+/// Registry of domains: name, generator, runner.  Add one line per new domain.
+const DOMAINS: &[(&str, GenFn, RunFn)] = &[
+    ("codec", codec::gen, codec::run_case),
+];
 
 fn main() {
     let args: Vec<String> = std::env::args().collect();
@@ -16,22 +25,24 @@ fn main() {
     util::install_logger();
     let stdout = std::io::stdout();
     let mut w = std::io::BufWriter::with_capacity(1 << 20, stdout.lock());
-    match (args[1].as_str(), args[2].as_str()) {
-        ("gen", domain) => {
+    let dom = DOMAINS.iter().find(|d| d.0 == args[2]);
+    let (_, gen, run) = match dom {
+        Some(d) => *d,
+        None => {
+            eprintln!("unknown domain {}", args[2]);
+            std::process::exit(2);
+        }
+    };
+    match args[1].as_str() {
+        "gen" => {
             let seed: u64 = args.get(3).map(|s| s.parse().unwrap()).unwrap_or(1);
             let thorough = args.get(4).map(|s| s == "thorough").unwrap_or(false);
             let mut out = |s: String| {
                 writeln!(w, "{}", s).unwrap();
             };
-            match domain {
-                "codec" => codec::gen(seed, thorough, &mut out),
-                _ => {
-                    eprintln!("unknown domain {}", domain);
-                    std::process::exit(2);
-                }
-            }
+            gen(seed, thorough, &mut out);
         }
-        ("run", domain) => {
+        "run" => {
             let stdin = std::io::stdin();
             for line in stdin.lock().lines() {
                 let line = line.unwrap();
@@ -39,13 +50,7 @@ fn main() {
                 if line.is_empty() || line.starts_with('#') {
                     continue;
                 }
-                let r = match domain {
-                    "codec" => codec::run_case(line),
-                    _ => {
-                        eprintln!("unknown domain {}", domain);
-                        std::process::exit(2);
-                    }
-                };
+                let r = run(line);
                 writeln!(w, "{} => {}", line, r).unwrap();
             }
         }
